@@ -113,6 +113,14 @@ namespace sim
 			req_len = find_request_len(m_client_in_buffer, m_num_client_in_bytes);
 		}
 
+		if (m_num_client_in_bytes >= int(sizeof(m_client_in_buffer)))
+		{
+			// the buffer is full and still does not hold a complete request
+			std::printf("http_proxy::on_read_request: request too large\n");
+			close_connection();
+			return;
+		}
+
 		// read more from the client
 		m_client_connection.async_read_some(asio::buffer(
 			&m_client_in_buffer[m_num_client_in_bytes]
